@@ -226,4 +226,48 @@ theorem stepCore_err_keeps {g g' : GState} {op : Op} {out : Out}
   | write b seed => exact ek_write hs
   | split b at_ => exact ek_split hs
 
+/-! ## a refusing base allocator -/
+
+/-- how many base-allocator calls an operation can make (`alloc_try_with` whose closure allocates: two) -/
+def maxRequests : Op → Nat
+  | .allocTryWith _ _ _ _ (some _) _ => 2
+  | _ => 1
+
+theorem baseOK_of_fail {s : State} {L : Layout} {rest : List BaseResp} (h : s.resps = .fail :: rest) :
+    BaseOK cfg s L := fun size _ => ⟨.fail, rest, h, trivial⟩
+
+/-- a refusing base allocator "answers" every request (`Answered` only asks that a response is pending and,
+    if it is a grant, large enough) -/
+theorem answered_of_allFail (g : GState) (op : Op) {resps : List BaseResp} (hall : (∀ r ∈ resps, r = BaseResp.fail))
+    (hlen : maxRequests op ≤ resps.length) : Answered cfg (install g resps).s op := by
+  obtain ⟨r0, rest, rfl⟩ : ∃ r0 rest, resps = r0 :: rest := by
+    cases resps with
+    | nil => unfold maxRequests at hlen; split at hlen <;> simp at hlen
+    | cons a l => exact ⟨a, l, rfl⟩
+  have hr0 : r0 = .fail := hall r0 List.mem_cons_self
+  subst hr0
+  have hb : ∀ L, BaseOK cfg (install g (.fail :: rest)).s L := fun L => baseOK_of_fail rfl
+  cases op with
+  | newWithSize n => exact fun size _ => ⟨.fail, rest, rfl, trivial⟩
+  | reserve n dyn =>
+    cases dyn
+    · exact fun _ _ => hb _
+    · exact hb _
+  | allocTryWith L off vsize ok inner m =>
+    refine ⟨hb L, fun Li hLi s1 r hal => ?_⟩
+    subst hLi
+    obtain ⟨r1, rest1, rfl⟩ : ∃ r1 rest1, rest = r1 :: rest1 := by
+      cases rest with
+      | nil => simp [maxRequests] at hlen
+      | cons a l => exact ⟨a, l, rfl⟩
+    have hr1 : r1 = .fail := hall r1 (List.mem_cons_of_mem _ List.mem_cons_self)
+    subst hr1
+    rcases (allocGeneric_frame hal).2.2.1 with h | ⟨x, h⟩
+    · exact baseOK_of_fail (rest := .fail :: rest1) h
+    · have h' : (BaseResp.fail :: BaseResp.fail :: rest1) = x :: s1.resps := h
+      simp only [List.cons.injEq] at h'
+      exact baseOK_of_fail h'.2.symm
+  | _ => first | exact hb _ | trivial
+
+
 end Arena.Hist
